@@ -64,9 +64,9 @@ CHECKS = {
          "memory safety and UB are observed through the sanitizer build, not derived from the model; 'any byte sequence' is sampled; trusted: stdout abstraction (harness/lib/cli.py), TLC",
          "TLC model checking of CLI.tla + trace validation replaying CLI.tla actions (Trace_C14.tla) on executions of the sanitizer build", "DESIGN 10.3 and 5/C14"),
  "C15": ("model_checking",
-         "CLI.tla (CLI_full.cfg) checks the slot table - which symbolic quantity is printed in which slot for each of the 480 option vectors and 3 input types, default format per input type, uncertainty placement - as invariants; Trace_C15.tla validates executions of gm2calc.x against API values recorded from the library for the same input: printed decimals equal the API value to the printed precision (minimal, SLHA blocks, every number of both detailed reports incl. products and sums), parts add up to totals, every percentage is 100 x component / reference, the same text in formats 0/2/3/4, uncertainty exactly where documented, SLHA echo token-for-token",
+         "CLI.tla (CLI_full.cfg) checks the slot table - which symbolic quantity is printed in which slot for each of the 480 option vectors and 3 input types, default format per input type, uncertainty placement - as invariants; Trace_C15.tla validates executions of gm2calc.x against API values recorded from the library for the same input: printed decimals equal the API value to the printed precision (minimal, SLHA blocks, every number of both detailed reports incl. products and sums), parts add up to totals, every percentage is 100 x component / reference, the same text in formats 0/2/3/4, uncertainty exactly where documented, SLHA echo token-for-token; SLHAWriter.tla models the output document (read, fill_block_entry, write) as a machine (EchoOthers, WriterSeesResult, ReaderSeesResult, BlockPlacement, three wrong variants) and Trace_Writer.tla validates the library's printed document after every operation on all 4033 bounded input documents",
          "quick tier: covering subset of 60 option vectors per input (all 480 in the thorough tier), shipped inputs and test points; trusted: decimal/stdout parsing in the harness, TLC",
-         "TLC model checking of CLI.tla slot invariants + TLA+ trace validation (Trace_C15.tla) of program output against recorded API values", "DESIGN 10.3 and 5/C15"),
+         "TLC model checking of CLI.tla slot invariants and of the SLHAWriter.tla output-document machine + TLA+ trace validation (Trace_C15.tla, Trace_Writer.tla) of program output against recorded API values and of the library's writer against the specification", "DESIGN 10.3 and 5/C15"),
  "C16": ("model_checking",
          "Defects.tla holds the catalogue of documented defects, the exception classes a refusal may carry and the rules of the property as predicates; TLC enumerates all defect sets of size <= 2; CLI.tla is model-checked for the exit-status rules (refused / problem flagged / warnings only) over all input classes, force-output and formats.  Every defect set x force-output is applied to random valid points through the C++ API, the C API and gm2calc.x in the three input formats; Trace_C16.tla evaluates the rules on each recorded outcome (exception class / error code, stderr warnings, problem flag, finiteness, exit status, presence of physics output)",
          "a refusal under force-output counts as rejection; the massless-chargino defect is not enumerated (not realisable exactly from outside); SLHA-format program runs use the shipped example point; trusted: Defects.tla transcription of the documentation, TLC",
